@@ -59,7 +59,8 @@ RULE = ("seeded random cases. chain: explicit key sets over the pitch "
         "values, function values, negative durations, override keys "
         "(send_gate, has_gate, msg_params, gate), unimplemented keys (latency, "
         "lag, timing_offset, strum), event types other than note and rest, "
-        "direct play of a rest, articulate Pmono, Pmono below Pchain, timing "
+        "direct play of a rest, rests in an articulated Pmono, Pmono below "
+        "Pchain, timing "
         "keys in the left operand of a Pchain over Pdelta/Ppar, quant != 0")
 AUDIT = """accommodation | justified by | status
 fractional degrees, ctranspose with degree, gtranspose/root/note with any
@@ -99,7 +100,7 @@ MIN_COUNTERS = {
               'tl_total_duration_checked': 800, 'tl_with_ppar': 300,
               'tl_with_pdur_clipping': 40, 'tl_with_pdelta': 200,
               'tl_with_pchain': 200, 'tl_mono_set_checked': 200,
-              'tl_special_type-rest': 40, 'tl_special_delta-none': 20,
+              'tl_special_pmono-artic': 100, 'tl_special_type-rest': 40, 'tl_special_delta-none': 20,
               'tl_special_dur-inf': 20, 'tl_total_duration_bounded': 40,
               'play_programs_with_undescribed_instrument': 100,
               'tl_reuse_cases_ok': 500,
@@ -116,7 +117,7 @@ MIN_COUNTERS = {
                  'tl_total_duration_checked': 15000, 'tl_with_ppar': 5000,
                  'tl_with_pdur_clipping': 1000, 'tl_with_pdelta': 3000,
                  'tl_with_pchain': 3000, 'tl_mono_set_checked': 2000,
-                 'tl_special_type-rest': 800, 'tl_special_delta-none': 400,
+                 'tl_special_pmono-artic': 2000, 'tl_special_type-rest': 800, 'tl_special_delta-none': 400,
                  'tl_special_dur-inf': 400, 'tl_total_duration_bounded': 800,
                  'play_programs_with_undescribed_instrument': 2000,
                  'tl_reuse_cases_ok': 10000,
@@ -454,6 +455,14 @@ def run_timeline(spec, acc):
                     {'case': i, 'form': case['form'],
                      'differences': sorted({k for k, _ in bad}),
                      'first': bad[0][1], 'timeline_case': case})
+            continue
+        if case.get('special') == 'pmono-artic' and bad:
+            # Pmono(articulate=True): one key for the slur / re-articulation
+            # logic, the witness lists the traffic differences
+            acc.violation('C14/timeline/articulated-pmono-slur-or-release-'
+                          'differs', {'case': i, 'timeline_case': case,
+                                      'differences': sorted({k for k, _ in bad}),
+                                      'first': bad[0][1]})
             continue
         if 'special' in case and not full:
             acc.count(f"tl_special_ok_{case['special']}")
